@@ -40,6 +40,7 @@ CONSTANTS Source,       \* "enum" | "file"
           BMenu,        \* "tiny" | "small" | "full": fault sets tried for B's own docstring
           Ns,           \* numbers of errors a parser that returns with errors may report (subset of 1..2)
           PoisonedCache, \* TRUE while the tree has deviation epytext-half-built-document-cached (a to_node that fails keeps failing otherwise)
+          LongLineRefused, \* TRUE while the tree has deviation rst-long-line-refused (FALSE: such a text is parsed like any other)
           TocGuarded    \* FALSE while the tree has deviation format-toc-unguarded (TRUE: a to_node failure inside get_toc yields no toc)
 
 Objs == {"A", "B", "V"}
@@ -62,19 +63,43 @@ Ops2 == {"docstring", "summary"}
 \*         once                  DEVIATION PoisonedCache (epytext.py:1378-1392 ParsedEpytextDocstring.to_node stores the new,
 \*                               empty document in its cache BEFORE building it): the first to_node call raises, every later
 \*                               one returns the empty half-built document.  Realised by a real epytext docstring, not injected.
-Fault == [parse : {"ok", "warn", "fatal", "crash"}, n : 1..2, tostan : {"ok", "raises"},
+\* lvl     (parse = warn) how grave docutils finds what it recovered from: info ("Possible title underline, too short",
+\*         "Enumerated list start value not ordinal-1", "Duplicate implicit target name"), warning, error, severe.  ALL of
+\*         them are markup problems of the docstring and are reported alike: lvl occurs nowhere in the steps below.
+\*         Levels other than "warning" are realised by real reST texts, not injected (nothing to inject below the reader).
+\* tag     the docstring has one more field whose tag is not a documented one: "unknown" - any other word - or "helper" -
+\*         the name of a METHOD of the class that dispatches on tags (FieldHandler.handle looks up 'handle_' + tag).  Both are
+\*         shown under their own name and reported as unknown fields (Field.report: no entry in parse_errors): no step below
+\*         mentions tag.  Realised with the names found by introspection of the handler class of the tree under test.
+\* ann     (A in the attribute scenario) the ANNOTATION of the object cannot be rendered: type2stan -> safe_to_stan ->
+\*         reportErrors(obj, section = 'annotation').  The page renders it BEFORE the docstring.  Other sections are other
+\*         sets of parse_errors: what happens to the docstring is not touched (variable aerr, never read by a step).
+\* parse = refused : DEVIATION LongLineRefused (docutils' line_length_limit, 10 000 characters): the reader refuses the whole
+\*         input, the parser RETURNS an empty document and one error flagged fatal; pydoctor reports it and renders the
+\*         empty document: nothing of the text is shown.  Realised by a real text with one very long line, not injected.
+Fault == [parse : {"ok", "warn", "fatal", "crash", "refused"}, n : 1..2, tostan : {"ok", "raises"},
           summary : {"ok", "broken", "stanraises"}, toc : {"none", "ok", "noderaises", "stanraises"},
-          field : {"ok", "raises"}, node : {"ok", "once"}]
-NoFault == [parse |-> "ok", n |-> 1, tostan |-> "ok", summary |-> "ok", toc |-> "none", field |-> "ok", node |-> "ok"]
+          field : {"ok", "raises"}, node : {"ok", "once"},
+          lvl : {"info", "warning", "error", "severe"}, tag : {"none", "unknown", "helper"}, ann : {"ok", "raises"}]
+NoFault == [parse |-> "ok", n |-> 1, tostan |-> "ok", summary |-> "ok", toc |-> "none", field |-> "ok", node |-> "ok",
+            lvl |-> "warning", tag |-> "none", ann |-> "ok"]
 \* after a fatal error / crash the plain text fallback object is used: the other faults can never be met
 \* (the summary of the plain text object can fail too - control characters - but only a real text can make it: file mode)
 Canonical(f) == /\ (f.parse \in {"fatal", "crash"} => f.tostan = "ok" /\ f.summary = "ok" /\ f.toc = "none" /\ f.field = "ok")
                 /\ (f.parse = "ok" => f.n = 1) /\ (f.parse \in {"fatal", "crash"} => f.n = 1)
+                /\ (f.parse = "refused" => f = [NoFault EXCEPT !.parse = "refused"])
                 /\ (f.node = "once" => f = [NoFault EXCEPT !.node = "once"])
+                \* the three dimensions without a step of their own are enumerated on otherwise healthy docstrings
+                \* (the only SEVERE problem with a single message is about section titles: that text has a table of contents)
+                /\ (f.lvl # "warning" => f = [NoFault EXCEPT !.parse = "warn", !.lvl = f.lvl, !.toc = IF f.lvl = "severe" THEN "ok" ELSE "none"])
+                /\ (f.tag # "none" => f = [NoFault EXCEPT !.tag = f.tag])
+                /\ (f.ann = "raises" => f \in {[NoFault EXCEPT !.ann = "raises"], [NoFault EXCEPT !.ann = "raises", !.tostan = "raises"]})
 SmallMenu == {NoFault, [NoFault EXCEPT !.parse = "fatal"], [NoFault EXCEPT !.tostan = "raises"], [NoFault EXCEPT !.node = "once"]}
 TinyMenu  == {NoFault, [NoFault EXCEPT !.tostan = "raises"]}
 
 \* faults of the field body that documents V: only its rendering can fail
+CanonFaults == {f \in Fault : Canonical(f) /\ f.n \in Ns}
+BFaults == CASE BMenu = "tiny" -> TinyMenu [] BMenu = "small" -> SmallMenu [] OTHER -> {f \in CanonFaults : f.n = 1}
 VMenu == {NoFault, [NoFault EXCEPT !.tostan = "raises"], [NoFault EXCEPT !.summary = "stanraises"], [NoFault EXCEPT !.summary = "broken"]}
 
 \* ---- call orders.  Every object gets each of its calls once (A, B: body / summary / toc; V: body / summary).  An order =
@@ -114,9 +139,11 @@ VARIABLES tid, F, inherit, kindA, vdoc, order,    \* configuration (fixed in Ini
           lk,          \* obj.docstring_linker between two calls: "home" (reports against obj, links relative to its own page) or
                        \* "away" (left in a switched context).  format_summary renders under switch_context(None) (linker.py:94-110)
                        \* and leaves it when it returns, whatever happened inside: no step of this machine changes lk
+          aerr,        \* System.parse_errors['annotation'] restricted to A, B, V: set before the first call (the annotation is
+                       \* rendered first), never read or written afterwards
           pz,          \* obj.parsed_docstring holds a half-built cached document (a to_node call on it has failed)
           res          \* results so far: sequence of [o, op, r]
-vars == <<tid, F, inherit, kindA, vdoc, order, i, pd, ps, perr, nrep, pz, lk, res>>
+vars == <<tid, F, inherit, kindA, vdoc, order, i, pd, ps, perr, nrep, aerr, pz, lk, res>>
 
 \* whose faults the text rendered for o has  /  the "source": whom the pipeline reports against and passes to the fallbacks
 Text(o) == IF o = "B" /\ inherit THEN "A" ELSE o
@@ -129,9 +156,9 @@ St == [pd |-> pd, ps |-> ps, perr |-> perr, nrep |-> nrep, pz |-> pz]
 ReportErrors(s, src, n) == IF src \in s.perr THEN s
                            ELSE [s EXCEPT !.perr = @ \cup {src}, !.nrep[src] = @ + n]
 \* parse_docstring(obj, doc, source): sets nothing itself, returns (kind of result, state after reporting)
-ParseResult(f) == IF f.parse \in {"ok", "warn"} THEN "parsed" ELSE "plain"
+ParseResult(f) == IF f.parse \in {"ok", "warn", "refused"} THEN "parsed" ELSE "plain"
 ParseDocstring(s, o) == LET f == F[Text(o)]
-                            s1 == IF f.parse = "ok" THEN s ELSE ReportErrors(s, Src(o), f.n)
+                            s1 == IF f.parse = "ok" \/ (f.parse = "refused" /\ ~LongLineRefused) THEN s ELSE ReportErrors(s, Src(o), f.n)
                         IN [s1 EXCEPT !.pd[o] = ParseResult(f)]
 \* ensure_parsed_docstring(obj): parse once, cache on obj
 \* (V has no docstring text: get_docstring finds nothing, what extract_fields stored - or nothing - stays)
@@ -140,7 +167,9 @@ EnsureParsed(s, o) == IF s.pd[o] = "none" /\ o # "V" THEN ParseDocstring(s, o) E
 \* format_docstring(obj): the body (safe_to_stan with the plain text fallback), then the fields (Field.format)
 DocstringBody(s1, o) ==
     LET f == F[Text(o)] IN
-    IF s1.pd[o] = "parsed" /\ f.node = "once"
+    IF s1.pd[o] = "parsed" /\ f.parse = "refused" /\ LongLineRefused
+      THEN [r |-> "lost", s |-> s1]                  \* the empty document is rendered: the parser gave up, no text is shown
+    ELSE IF s1.pd[o] = "parsed" /\ f.node = "once"
       THEN IF ~s1.pz[o] \/ ~PoisonedCache
              THEN [r |-> "plainfull", s |-> [ReportErrors(s1, Src(o), 1) EXCEPT !.pz[o] = PoisonedCache]]   \* to_stan -> to_node raises: fallback + report
              ELSE [r |-> "lost", s |-> s1]              \* to_stan renders the empty cached document: no text, no report
@@ -201,28 +230,35 @@ Blank == [pd |-> [o \in Objs |-> "none"], ps |-> [o \in Objs |-> "none"], perr |
 InitEnum == /\ Source = "enum" /\ tid = 0
             /\ inherit \in BOOLEAN /\ kindA \in {"func", "cls"}
             /\ (kindA = "cls" => ~inherit)
-            /\ F \in [Objs -> {f \in Fault : Canonical(f) /\ f.n \in Ns}]
-            /\ (inherit => F["B"] = NoFault)
-            /\ (~inherit /\ kindA = "func" => F["B"] \in (CASE BMenu = "tiny" -> TinyMenu [] BMenu = "small" -> SmallMenu
-                                                            [] OTHER -> {f \in Fault : Canonical(f) /\ f.n = 1}))
-            /\ (kindA = "cls" => F["B"] = NoFault)                       \* B is only a neighbour there
-            \* (quick bound: what the class shares with the function scenario is not enumerated twice)
-            /\ (kindA = "cls" /\ BMenu = "tiny" => F["A"].summary # "broken" /\ F["A"].toc \in {"none", "ok"})
-            /\ vdoc = (kindA = "cls" /\ F["A"].parse \in {"ok", "warn"}) \* the parser's result has the field, plain text has none
-            /\ F["V"] \in (IF vdoc THEN VMenu ELSE {NoFault})
+            /\ \E fa \in CanonFaults :
+                 /\ (fa.ann = "raises" => kindA = "func")                  \* the annotated attribute scenario
+                 /\ (fa.lvl # "warning" \/ fa.parse = "refused" => kindA = "func") \* (a text of its own: no fields appended to it)
+                 \* (quick bound: what the class shares with the function scenario is not enumerated twice)
+                 /\ (kindA = "cls" /\ BMenu = "tiny" => fa.summary # "broken" /\ fa.toc \in {"none", "ok"})
+                 /\ vdoc = (kindA = "cls" /\ fa.parse \in {"ok", "warn"})   \* the parser's result has the field, plain text has none
+                 /\ \E fb \in (IF ~inherit /\ kindA = "func" THEN BFaults ELSE {NoFault}) :     \* B inherits, or is only a neighbour
+                    \E fv \in (IF vdoc THEN VMenu ELSE {NoFault}) :
+                       /\ fb.ann = "ok" /\ fb.tag = "none" /\ fb.lvl = "warning"
+                       \* (A's real reST text and B's real epytext text cannot live in one module: one docformat per scenario)
+                       /\ ((fa.lvl # "warning" \/ fa.parse = "refused") => fb.node = "ok")
+                       /\ F = [o \in Objs |-> CASE o = "A" -> fa [] o = "B" -> fb [] o = "V" -> fv]
             /\ order \in Orders(kindA)
 InitFile == /\ Source = "file" /\ tid \in 1..Len(Traces)
             /\ inherit = Traces[tid].inherit /\ kindA = Traces[tid].kindA /\ vdoc = Traces[tid].vdoc
             /\ F = [o \in Objs |-> Traces[tid].F[o]]
             /\ order = <<>>
 \* the builder has run extract_fields on the class: its docstring is parsed, the @ivar field body given to V
-Start == IF kindA = "cls" THEN [ParseDocstring(Blank, "A") EXCEPT !.pd["V"] = IF vdoc THEN "parsed" ELSE "none"] ELSE Blank
+\* type2stan(A) before the first call (ann = raises): get_parsed_type looks for a "type" field in the attribute's own
+\* docstring first, i.e. it goes through ensure_parsed_docstring (epydoc2stan.get_parsed_type)
+Start == IF kindA = "cls" THEN [ParseDocstring(Blank, "A") EXCEPT !.pd["V"] = IF vdoc THEN "parsed" ELSE "none"]
+         ELSE IF F["A"].ann = "raises" THEN EnsureParsed(Blank, "A") ELSE Blank
 Init == /\ (InitEnum \/ InitFile)
         /\ i = 1 /\ res = <<>>
         /\ pd = Start.pd /\ ps = Start.ps /\ perr = Start.perr /\ nrep = Start.nrep /\ pz = Start.pz
         /\ lk = [o \in Objs |-> "home"]
+        /\ aerr = {o \in Objs : F[o].ann = "raises"}
 
-Apply(o, op, out) == /\ lk' = lk
+Apply(o, op, out) == /\ lk' = lk /\ aerr' = aerr
                      /\ pd' = out.s.pd /\ ps' = out.s.ps /\ perr' = out.s.perr /\ nrep' = out.s.nrep /\ pz' = out.s.pz
                      /\ res' = Append(res, [o |-> o, op |-> op, r |-> out.r])
                      /\ i' = i + 1
@@ -239,6 +275,7 @@ TraceStep == /\ Source = "file" /\ i <= Len(Traces[tid].ev)
                   /\ out.s.nrep = [o \in Objs |-> Ev.st.nrep[o]]
                   /\ out.s.pz = [o \in Objs |-> Ev.st.pz[o]]
                   /\ lk = [o \in Objs |-> Ev.st.lk[o]]
+                  /\ aerr = {o \in Objs : Ev.st.aerr[o]}
                   /\ Apply(Ev.o, Ev.op, out)
 Next == (Call \/ TraceStep) /\ UNCHANGED <<tid, F, inherit, kindA, vdoc, order>>
 Spec == Init /\ [][Next]_vars
@@ -258,7 +295,7 @@ FallbackComplete == \A x \in Results : x.op = "docstring" =>
                        /\ ((GaveUp(x.o) \/ (F[Text(x.o)].tostan = "raises" /\ pd[x.o] # "none")) => x.r = "plainfull")
                        /\ x.r \notin {"lost", "partial", "broken"}
 \* ... and the problem is reported against the object that carries the docstring
-ReportedWhenFailed == \A o \in Objs : (Parsed(o) /\ o # "V" /\ F[Text(o)].parse # "ok") => (Src(o) \in perr /\ nrep[Src(o)] >= 1)
+ReportedWhenFailed == \A o \in Objs : (Parsed(o) /\ o # "V" /\ F[Text(o)].parse # "ok" /\ ~(F[Text(o)].parse = "refused" /\ ~LongLineRefused)) => (Src(o) \in perr /\ nrep[Src(o)] >= 1)
 ReportedWhenRenderFails == \A x \in Results : (x.op = "docstring" /\ (F[Text(x.o)].tostan = "raises" \/ F[Text(x.o)].field = "raises") /\ pd[x.o] = "parsed")
                                                    => (Src(x.o) \in perr /\ nrep[Src(x.o)] >= 1)
 \* one report per object: whatever is called, in whatever order, however often the text is parsed
@@ -286,14 +323,15 @@ SourceParseUntouched == [][\A o \in Objs : (Stepped(o) /\ Src(o) # o) => pd'[Src
 KF_TocEscapes == \A x \in Results : x.r = "escaped" => (x.op = "toc" /\ (F[Text(x.o)].toc = "noderaises" \/ F[Text(x.o)].node = "once"))
 AlwaysResultOrKF == AlwaysResult \/ KF_TocEscapes
 \* known finding (findings.d/C08.json  epytext-half-built-document-cached): after a swallowed to_node failure the body is lost
-KF_PoisonedCache == \A x \in Results : (x.op = "docstring" /\ x.r = "lost") => F[Text(x.o)].node = "once"
+\* known finding (findings.d/C08.json  rst-long-line-refused): a docstring with a line of more than 10 000 characters is shown empty
+KF_PoisonedCache == \A x \in Results : (x.op = "docstring" /\ x.r = "lost") => (F[Text(x.o)].node = "once" \/ F[Text(x.o)].parse = "refused")
 FallbackCompleteOrKF == FallbackComplete \/ (KF_PoisonedCache /\ \A x \in Results : x.op = "docstring" =>
                                                  ((GaveUp(x.o) \/ (F[Text(x.o)].tostan = "raises" /\ pd[x.o] # "none")) => x.r = "plainfull") /\ x.r \notin {"partial", "broken"})
 
 \* ------------------------------------------------------------------ emission / acceptance
 DoneEnum == Source = "enum" /\ i = Len(order) + 1
 EmitTerminal == DoneEnum => PrintT(ToJson([F |-> F, inherit |-> inherit, kindA |-> kindA, vdoc |-> vdoc, res |-> res,
-                                           final |-> [pd |-> pd, ps |-> ps, nrep |-> nrep, pz |-> pz, lk |-> lk, perr |-> [o \in Objs |-> o \in perr]]]))
+                                           final |-> [pd |-> pd, ps |-> ps, nrep |-> nrep, pz |-> pz, lk |-> lk, aerr |-> [o \in Objs |-> o \in aerr], perr |-> [o \in Objs |-> o \in perr]]]))
 Accept == (Source = "file" /\ i = Len(Traces[tid].ev) + 1) => TLCSet(1, TLCGet(1) \cup {tid})
 Post == IF Source = "file" THEN PrintT(ToJson([accepted |-> TLCGet(1), total |-> Len(Traces)])) ELSE TRUE
 =============================================================================
